@@ -408,7 +408,7 @@ pub fn run_c05(cx: &Cx) -> PropResult {
     let mut r = PropResult::new(
         acc,
         "fault_enumeration",
-        "inputs: (a) EVERY byte string of length <= 2 (thorough, release profile: <= 3 for leaf and one-level types) for a fixed list of types covering every leaf, every constructor and hand-written derived declarations with every evolution step kind (exhaustive for that sub-space); (b) random byte strings up to 4 KiB (length skewed short) against generated types incl. derived/evolved declarations; (c) structure-aware tampering of valid encodings — in the writer's form or, for a quarter of the cases, with sequence nodes in unknown-length form — (1-3 composed operators on the reference encoder's site map: rewrite a chunk size / count / length / constructor index / back-reference to 0, 1, v+-1, 2v, -1..-4, i32::MIN, i32::MAX, u32::MAX; replace version / tag / flag / position bytes; delete, duplicate, swap, splice element and chunk ranges; truncate; append; bit flips; over-long varints); (d) generated op sequences on SliceInput / OwnedInput / DeserializationContext with adversarial counts (usize::MAX, usize::MAX - pos, remaining +- 2). Oracle: Ok or Err — no unwind (catch_unwind), no process death or hang (supervisor watches the slot file: a case running > 90 s is re-run alone twice), and under a tracking allocator peak live heap <= 64 KiB + (32*S+256)*(n+1)*A (a B-tree leaf holds 11 slots however few elements it has) and no single request above max(64 KiB, 2*S*(n+1)*A) for input length n, S = size_of of the harness element type, A = product of the nested fixed-size array lengths of the type (an array of empty-encoded elements is N elements for one count byte, by type, not by input). Both the overflow-checked and the release profile are run. Non-trivial = the input is not a valid encoding of the type (per the reference decoder) and is non-empty.",
+        "inputs: (a) EVERY byte string of length <= 2 (thorough, release profile: <= 3 for leaf and one-level types) for a fixed list of types covering every leaf, every constructor and hand-written derived declarations with every evolution step kind (exhaustive for that sub-space); (b) random byte strings up to 4 KiB (length skewed short) against generated types incl. derived/evolved declarations; (c) structure-aware tampering of valid encodings — in the writer's form or, for a quarter of the cases, with sequence nodes in unknown-length form — (1-3 composed operators on the reference encoder's site map: rewrite a chunk size / count / length / constructor index / back-reference to 0, 1, v+-1, 2v, -1..-4, i32::MIN, i32::MAX, u32::MAX; replace version / tag / flag / position bytes; delete, duplicate, swap, splice element and chunk ranges; truncate; append; bit flips; over-long varints); (d) generated op sequences on SliceInput / OwnedInput / DeserializationContext with adversarial counts (usize::MAX, usize::MAX - pos, remaining +- 2). Oracle: Ok or Err — no unwind (catch_unwind), no process death or hang (supervisor watches the slot file: a case running > 90 s is re-run alone twice), and under a tracking allocator peak live heap <= 64 KiB + (32*S+256)*(n+1)*A (a B-tree leaf holds 11 slots however few elements it has) and no single request above max(64 KiB, 2*S*(n+1)*A) for input length n, S = size_of of the harness element type, A = product of the nested fixed-size array lengths of the type (an array of empty-encoded elements is N elements for one count byte, by type, not by input). Both the overflow-checked and the release profile are run. Non-trivial = the input is not a valid encoding of the type (per the reference decoder) and is non-empty. Also: encodings of the recursive compiled declarations nested 20-300 deep (intact, cut, one byte changed), and well-formed long texts that name no zone / spell no number with multi-byte characters at every offset.",
     );
     r.exhaustive = Some(true);
     r.extra = json!({"exhaustive_max_len": ml, "exhaustive_note": "exhaustive refers to sub-space (a); (b)-(d) are sampled", "element_size_S": vcat::LIVE_SIZE});
